@@ -5,5 +5,5 @@ CONSTANTS K = 2
           W = 1
           Ext = FALSE
           ValSet = "plain"
-INVARIANTS L2vsL1 Laws Monotone
+INVARIANTS L2vsL1 LawsInner Monotone
 CHECK_DEADLOCK FALSE
